@@ -18,9 +18,11 @@ TOK_PLAIN = r"(?P<SPACE>\s+)|(?P<a>a)|(?P<b>b)|(?P<c>c)|(?P<d>d)|(?P<e>e)"
 # keywords / synonyms configuration: two regex groups map to token 'a', a WORD value to 'b'
 # the keywords are declared for a token name that exists only through the synonyms (three groups are called 'a')
 # ... and a quoted word is a token of another kind (b) whose VALUE (the text between the quotes) may equal the value of an a
-TOK_KW = r"(?P<SPACE>\s+)|(?P<X1>x)|(?P<X2>y)|(?P<W1>[k-w]+)|\"(?P<Q1>[a-z]*)\""
+# a comment (skipped) may hold any character but the line feed; keywords also rename tokens INTO and OUT OF the skipped
+# kinds: the word 'zz' becomes white space, a lone tab (white space) becomes the token b
+TOK_KW = r"(?P<SPACE>\s+)|(?P<COMMENT>\#[^\n]*)|(?P<X1>x)|(?P<X2>y)|(?P<W1>[k-w]+|zz)|\"(?P<Q1>[a-z]*)\""
 KW_SYN = {'X1': 'a', 'X2': 'a', 'W1': 'a', 'Q1': 'b'}
-KW_KEY = {('a', 'kw'): 'b', ('a', 'kww'): 'c', ('a', 'kwd'): 'd', ('a', 'kwe'): 'e'}
+KW_KEY = {('a', 'kw'): 'b', ('a', 'kww'): 'c', ('a', 'kwd'): 'd', ('a', 'kwe'): 'e', ('a', 'zz'): 'SPACE', ('SPACE', '\t'): 'b'}
 
 FAMILIES = {
     # name: (NumNT, terms, MaxAlts, MaxLen, K, PrefixLen)
@@ -37,6 +39,9 @@ FAMILIES = {
     'W6': (1, ['a', 'b', 'c', 'd', 'e'], 6, 1, 1, 1, 'terms'),
     # chain A -> B.. -> C..: each symbol uses later symbols only, as <<N>> or <<N, t>> (nullable heads of chains)
     'H3': (3, ['a', 'b'], 2, 2, 3, 0, 'chain'),
+    # as H3 over one terminal, plus a later symbol repeated around the terminal (N N a, N a N), two later symbols and
+    # right recursion behind a later symbol (what is nullable when a nullable symbol occurs twice in a production)
+    'N3': (3, ['a'], 2, 3, 2, 0, 'rep'),
 }
 
 
@@ -165,14 +170,26 @@ def render(toks, kw, salt=0):
         if t == 'a':
             lex.append(('x', 'y', 'mm')[(i + salt) % 3])
         elif t == 'b':
-            lex.append(('kw', '"x"', '"mm"', '"y"')[(i + salt) % 4])
+            lex.append(('kw', '"x"', '"mm"', '"y"', '\t')[(i + salt) % 5])
         elif t == 'c':
             lex.append('kww')
         elif t == 'd':
             lex.append('kwd')
         else:
             lex.append('kwe')
-    return ' '.join(lex), [{'n': t, 'v': l.strip('"')} for t, l in zip(toks, lex)]      # value of a quoted word: without the quotes
+    # glue: a single blank, the word 'zz' (renamed to white space by a keyword) or nothing around a tab that is a token
+    text = ''
+    for i, l in enumerate(lex):
+        if i:
+            if l == '\t' or lex[i - 1] == '\t':
+                glue = ''
+            else:
+                glue = (' ', ' zz ', ' ')[(i + salt) % 3]
+            text += glue
+        text += l
+    if salt % 2:
+        text += ' # x\x0c y\r kw\x85 x\u2028 y'        # a comment ends at the line feed only
+    return text, [{'n': t, 'v': l.strip('"')} for t, l in zip(toks, lex)]      # value of a quoted word: without the quotes
 
 
 def all_inputs(terms, k):
@@ -363,7 +380,7 @@ def explore(ctx, want):
     """Run the whole pipeline; report only violations of property `want`."""
     fams = ['Q2', 'A1', 'P1', 'C3'] if ctx.quick else ['A2', 'A1', 'P1', 'C3', 'P2']
     if want == 'C03':
-        fams = fams + ['R3']
+        fams = fams + ['R3', 'N3']
     if want == 'C02':
         fams = fams + ['W6', 'H3']
     total_parses = 0
